@@ -363,11 +363,12 @@ def spec_single(ck, c, obj, idx, mc, call):
             elif exp == "poly" and idx is not None and k < len(idx):
                 f = int(idx[k])
             else:
-                # lines: find the antimeridian face whose corners the piece uses
-                for cand in am:
-                    if check_pieces(rs, plain[cand]) in (None, "corner_missing", "cuts_do_not_match") and uses_corner(rs, plain[cand]):
-                        f = cand
-                        break
+                # lines: the antimeridian face this line belongs to: a complete polygon of the face if there
+                # is one, else a piece that uses only corners of the face
+                full = [cand for cand in am if check_pieces(rs, plain[cand]) is None]
+                part = [cand for cand in am if check_pieces(rs, plain[cand]) in ("corner_missing", "cuts_do_not_match")
+                        and uses_corner(rs, plain[cand])]
+                f = full[0] if full else (part[0] if part else None)
             faces_of_row.append(f)
             if f is None or f not in am:
                 bad = bad or ("polygon_vertices", "row %d is neither a face ring nor pieces of an antimeridian face" % k)
